@@ -20,6 +20,7 @@
 Not controlled: preemption inside one source line (the probes see every primitive access, the scheduler switches threads
 only between lines of the store classes).
 """
+import logging
 import os
 import sys
 import threading
@@ -124,6 +125,7 @@ class Recorder:
         self.cur_op = {}
         self.lock = None
         self.flavour = None
+        self.lines = set()        # (file, line) of every traced source line executed (coverage of logger-conditioned branches)
 
     def current(self):
         return getattr(self.tls, "tid", 0)
@@ -277,6 +279,7 @@ class Recorder:
     def local_trace(self, frame, event, arg):
         if event == "line":
             tid = self.current()
+            self.lines.add((frame.f_code.co_filename, frame.f_lineno))
             self.flush(tid)                  # the previous line of this thread is complete
             if self.sched is not None:
                 self.sched.yield_point(tid)
@@ -546,12 +549,42 @@ def probe_store(st, rec):
 # --------------------------------------------------------------------------------------------
 # stores and operations
 
-def fresh_store(flavour, rec):
+class CountingHandler(logging.Handler):
+    """swallows the records and counts them per level"""
+
+    def __init__(self):
+        super().__init__(level=logging.DEBUG)
+        self.counts = {}
+
+    def emit(self, record):
+        self.counts[record.levelname] = self.counts.get(record.levelname, 0) + 1
+
+
+def store_logger():
+    """the logger a store singleton is created with in the `logger` configuration: a real logging.Logger that handles every
+    level (so `if self.log is not None:` branches run and the call goes all the way through the logging framework), kept away
+    from the root logger and the console"""
+    lg = logging.getLogger("fimverif.c20.store")
+    lg.setLevel(logging.DEBUG)
+    lg.propagate = False
+    for h in list(lg.handlers):
+        lg.removeHandler(h)
+    h = CountingHandler()
+    lg.addHandler(h)
+    lg.c20_handler = h
+    return lg
+
+
+def fresh_store(flavour, rec, logger=None):
+    """a new store singleton of the given flavour, created WITH the given logger (None = the default configuration): the first
+    importer of the process decides what `self.log` of the store is for the rest of its life"""
     import fim.graph.networkx_property_graph as pg
     import fim.graph.networkx_property_graph_disjoint as pgd
     pg.NetworkXGraphStorage.storage_instance = None
     pgd.NetworkXGraphStorageDisjoint.storage_instance = None
-    imp = pg.NetworkXGraphImporter() if flavour == "shared" else pgd.NetworkXGraphImporterDisjoint()
+    imp = pg.NetworkXGraphImporter(logger=logger) if flavour == "shared" else pgd.NetworkXGraphImporterDisjoint(logger=logger)
+    if getattr(imp.storage.storage_instance, "log", None) is not logger:
+        raise RuntimeError("the store singleton was not created with the requested logger")
     lock = ILock(rec)
     imp.storage.storage_instance.lock = lock
     rec.lock = lock
@@ -856,12 +889,12 @@ def preemptions(log):
     return sum(1 for en, t, cur in log if cur is not None and cur in en and t != cur)
 
 
-def run_threads(gen_report, flavour, thread_ops, decide, setup_ops=()):
+def run_threads(gen_report, flavour, thread_ops, decide, setup_ops=(), logger=None):
     """thread_ops: [[op,...] per thread]; returns dict(results, events, snapshot, log, stuck)"""
     n = len(thread_ops)
     sched = Sched(n)
     rec = Recorder(gen_report, None)
-    imp, lock = fresh_store(flavour, rec)
+    imp, lock = fresh_store(flavour, rec, logger)
     # sequential setup (not scheduled, not recorded)
     # sequential setup: recorded as the program of an extra thread `n` that runs first
     if setup_ops:
@@ -890,7 +923,7 @@ def run_threads(gen_report, flavour, thread_ops, decide, setup_ops=()):
             "identity": sched.broken or identity(rec)}
 
 
-def explore(gen_report, flavour, thread_ops, bound, budget, setup_ops=(), visit=None):
+def explore(gen_report, flavour, thread_ops, bound, budget, setup_ops=(), visit=None, logger=None):
     """DFS over schedules with at most `bound` preemptions; returns number of runs, exhausted?"""
     stack = [[]]
     runs = 0
@@ -898,7 +931,7 @@ def explore(gen_report, flavour, thread_ops, bound, budget, setup_ops=(), visit=
         if runs >= budget:
             return runs, False
         prefix = stack.pop()
-        r = run_threads(gen_report, flavour, thread_ops, decide_from(prefix), setup_ops)
+        r = run_threads(gen_report, flavour, thread_ops, decide_from(prefix), setup_ops, logger)
         runs += 1
         r["prefix"] = prefix
         if visit:
